@@ -65,7 +65,9 @@ pub trait Run {
     fn truncate(&mut self, n: u32) -> Obs;
     fn clone_arena(&mut self, idx: usize);
     fn drop_arena(&mut self, idx: usize);
-    fn flush(&mut self) -> Obs;
+    /// kind 0..8: flush, flush_async, flush_range, flush_async_range, flush_header, flush_async_header,
+    /// flush_header_and_range, flush_async_header_and_range (ranges inside the mapping)
+    fn flush(&mut self, kind: u8) -> Obs;
     fn write_reserved(&mut self, data: &[u8]);
     fn reserved(&self) -> Vec<u8>;
     fn remove_on_drop(&mut self, v: bool);
@@ -289,8 +291,20 @@ impl<A: VArena> Run for Runner<A> {
         );
         self.arenas[idx] = None;
     }
-    fn flush(&mut self) -> Obs {
-        Obs::Res(self.any().flush().map_err(|e| format!("{:?}", e.kind())))
+    fn flush(&mut self, kind: u8) -> Obs {
+        let a = self.any();
+        let (used, d, cap) = (a.allocated(), a.data_offset(), a.capacity());
+        let r = match kind % 8 {
+            0 => a.flush(),
+            1 => a.flush_async(),
+            2 => a.flush_range(0, used),
+            3 => a.flush_async_range(d.min(cap), used.saturating_sub(d)),
+            4 => a.flush_header(),
+            5 => a.flush_async_header(),
+            6 => a.flush_header_and_range(d.min(cap), used.saturating_sub(d)),
+            _ => a.flush_async_header_and_range(0, cap),
+        };
+        Obs::Res(r.map_err(|e| format!("{:?}", e.kind())))
     }
     fn write_reserved(&mut self, data: &[u8]) {
         let a = self.any();
